@@ -13,6 +13,7 @@ import (
 	"database/sql"
 	"encoding/json"
 	"fmt"
+	"strings"
 	"time"
 
 	sgbucket "github.com/couchbase/sg-bucket"
@@ -335,6 +336,23 @@ func (c *Collection) getViewRows(view *rosmarView, params *sgbucket.ViewParams) 
 			*minmax = nil
 		}
 		return nil
+	}
+	if params.Keys != nil {
+		// Select every row whose key is one of `keys`. (The column's JSON collation makes IN a
+		// comparison of JSON values.) Done here rather than by ViewResult.FilterKeys, which keeps
+		// only one row per key and needs the rows in ascending order.
+		placeholders := make([]string, len(params.Keys))
+		for i, key := range params.Keys {
+			jsonKey, jsonErr := json.Marshal(key)
+			if jsonErr != nil {
+				return result, jsonErr
+			}
+			name := fmt.Sprintf("KEY%d", i)
+			placeholders[i] = `$` + name
+			args = append(args, sql.Named(name, string(jsonKey)))
+		}
+		sel += `AND mapped.key IN (` + strings.Join(placeholders, `,`) + `) `
+		params.Keys = nil
 	}
 	if err = setMinMax(&params.MinKey, params.IncludeMinKey, `>`, "MINKEY"); err != nil {
 		return
